@@ -386,6 +386,53 @@ func ruleStylerPerColumn(names ...string) func(p *Prog, l *Ledger, tier string) 
 				continue
 			}
 			loops := loopsOf(fn)
+			// a styler may be kept from one column to the next as long as it is still blank: it is then replaced, inside
+			// the loop, under a flag that holds what hasBeenSet() answered for the previous column
+			replacedWhenSet := false
+			for _, b := range fn.Blocks {
+				for _, ins := range b.Instrs {
+					c, ok := ins.(*ssa.Call)
+					if !ok || c.Call.Value != fs {
+						continue
+					}
+					inLoop := false
+					for _, li := range loops {
+						if li.blocks[b] {
+							inLoop = true
+						}
+					}
+					if !inLoop {
+						continue
+					}
+					for _, dc := range dominatingConds(b) {
+						if !dc.taken {
+							continue
+						}
+						seen := map[ssa.Value]bool{}
+						var fromHasBeenSet func(v ssa.Value) bool
+						fromHasBeenSet = func(v ssa.Value) bool {
+							if seen[v] {
+								return false
+							}
+							seen[v] = true
+							switch x := v.(type) {
+							case *ssa.Phi:
+								for _, e := range x.Edges {
+									if fromHasBeenSet(e) {
+										return true
+									}
+								}
+							case *ssa.Call:
+								return x.Call.IsInvoke() && x.Call.Method.Name() == "hasBeenSet"
+							}
+							return false
+						}
+						if fromHasBeenSet(dc.cond) {
+							replacedWhenSet = true
+						}
+					}
+				}
+			}
 			for _, b := range fn.Blocks {
 				for _, ins := range b.Instrs {
 					c, ok := ins.(*ssa.Call)
@@ -399,6 +446,10 @@ func ruleStylerPerColumn(names ...string) func(p *Prog, l *Ledger, tier string) 
 						if li.blocks[b] {
 							in = true
 						}
+					}
+					if !in && replacedWhenSet {
+						l.Prove(rule, name, key, p.Pos(c.Pos()), "the styler created before the loop is replaced inside it as soon as hasBeenSet() has answered true for a column")
+						continue
 					}
 					if in {
 						l.Prove(rule, name, key, p.Pos(c.Pos()), "a fresh styler is created for every column")
